@@ -167,7 +167,7 @@ def run(ctx):
                 nd += 1
                 ctx.spec_drift("Dtx", "peeked DTX counters do not follow Dtx!GenPacket/SilkPacket at %s line %s: %s" % (
                     os.path.basename(out), rej, vf.file_line(out, rej or 1)[:300]))
-    ctx.notes["thresholds_cdB"] = dict(GapMax=-5000, GapEarly=-3000, LoudMin=-5500)
+    ctx.notes["thresholds_cdB"] = dict(GapMax=-5000, LoudMin=-5500)
     ctx.notes["observed"] = OBS
 
 
